@@ -3,8 +3,11 @@ gate, running the hook and the model, evidence / replay / known-finding bookkeep
 import json, os, re, subprocess, sys, time, hashlib, glob, shutil
 
 ROOT = os.path.dirname(os.path.dirname(os.path.abspath(__file__)))
-REPO = '/repo'
-CACHE = os.path.join(ROOT, '.cache')
+# The registered commands always work on /repo.  The VERIF_MUT_* variables are set only by the
+# mutation campaign (tools/mutate.py), which runs the checks against scratch worktrees in parallel.
+REPO = os.environ.get('VERIF_MUT_REPO', '/repo')
+CACHE = os.environ.get('VERIF_MUT_CACHE', os.path.join(ROOT, '.cache'))
+OUT = os.environ.get('VERIF_MUT_OUT', ROOT)
 COQ = os.path.join(ROOT, 'coq')
 GUARD = 'disjoint_impls_verif'
 ENV = dict(os.environ, CARGO_NET_OFFLINE='true')
@@ -80,6 +83,13 @@ def audit_coq():
 
 
 def proof_gate(prefixes):
+    if os.environ.get('VERIF_MUT_REPO'):
+        # mutation campaign: the Coq development is not touched and was gated by the caller
+        return dict(ok=True, theorems=[], failures=[])
+    return _proof_gate(prefixes)
+
+
+def _proof_gate(prefixes):
     """Build everything, audit, and read Print Assumptions for the theorems in
     Properties.v whose name starts with one of `prefixes`.
     Returns dict(ok, theorems=[(name, status)], failures=[...], log)."""
@@ -260,7 +270,7 @@ def load_known():
 
 
 def write_replay(prop, payload):
-    d = os.path.join(ROOT, 'replays')
+    d = os.path.join(OUT, 'replays')
     os.makedirs(d, exist_ok=True)
     n = 0
     while os.path.exists(os.path.join(d, '%s-%03d.json' % (prop, n))):
@@ -271,7 +281,7 @@ def write_replay(prop, payload):
 
 
 def write_evidence(prop, tier, seed, level, coverage, wall_s, violations, assumptions):
-    d = os.path.join(ROOT, 'evidence')
+    d = os.path.join(OUT, 'evidence')
     os.makedirs(d, exist_ok=True)
     ev = dict(property_id=prop, tier=tier, seed=seed, level=level, coverage=coverage,
               assumptions=assumptions, wall_s=round(wall_s, 2), violations=violations)
